@@ -253,6 +253,39 @@ def run_freq(case: dict) -> Result:
         if distinct > 0 and card <= 0:
             res.add("cardinality-zero-nonempty", comp, "after-add", f"{card} for {distinct} distinct")
 
+    # clear() and reuse: everything must hold for the second stream alone
+    if stream:
+        reused = whole
+        reused.clear()
+        second = stream[len(stream) // 3 :]
+        t2 = Counter()
+        for i, c in second:
+            t2[uni[i]] += c
+        _feed(reused, uni, second)
+        n2 = sum(t2.values())
+        fresh = _mk(case)
+        _feed(fresh, uni, second)
+        res.count("reuse_after_clear_checked")
+        if reused.item_count != n2:
+            res.add("item-count", comp, "after-clear-and-reuse", f"{reused.item_count} vs {n2}")
+        for x in uni:
+            res.count("queries_checked")
+            if kind == "bloom" and reused.contains(x) != fresh.contains(x):
+                res.add("differs-from-fresh-sketch", comp, "after-clear-and-reuse", f"contains({x!r})")
+            elif kind == "cms" and reused.estimate(x) != fresh.estimate(x):
+                res.add("differs-from-fresh-sketch", comp, "after-clear-and-reuse", f"estimate({x!r}) {reused.estimate(x)} vs {fresh.estimate(x)}")
+            elif kind == "topk":
+                if x in reused:
+                    d = reused.estimate(x) - t2[x]
+                    if d < 0 or d > reused.estimate_with_error(x).error:
+                        res.add("error-bound", comp, "after-clear-and-reuse", f"item {x!r}: estimate {reused.estimate(x)}, true {t2[x]}, error {reused.estimate_with_error(x).error}")
+                elif t2[x] * case["k"] > n2:
+                    res.add("heavy-hitter-untracked", comp, "after-clear-and-reuse", f"item {x!r} count {t2[x]} > N/k = {n2}/{case['k']}")
+        if kind == "hll" and reused.cardinality() != fresh.cardinality():
+            res.add("differs-from-fresh-sketch", comp, "after-clear-and-reuse", f"cardinality {reused.cardinality()} vs {fresh.cardinality()}")
+        whole = _mk(case)
+        _feed(whole, uni, stream)
+
     # merge == sketch of the concatenated stream
     if kind in ("bloom", "cms", "hll"):
         split = case["split"]
@@ -295,9 +328,20 @@ def run_freq(case: dict) -> Result:
                 res.add("merge-state-differs", comp, shape, "registers differ")
         if a.item_count != whole.item_count:
             res.add("merge-differs", comp, shape + "-item-count", f"{a.item_count} vs {whole.item_count}")
-        # merge must not disturb its argument
-        if kind == "bloom" and b._bits != b_before._bits or kind == "cms" and b._counters != b_before._counters:
+        # merge must not disturb its argument, neither at once nor when the receiver is updated later (aliasing)
+        def same_state(x, y):
+            return (
+                kind == "bloom" and x._bits == y._bits or kind == "cms" and x._counters == y._counters or kind == "hll" and x._registers == y._registers
+            )
+
+        if not same_state(b, b_before):
             res.add("merge-mutates-argument", comp, shape, "")
+        a2 = copy.deepcopy(a)
+        for x in _queries(case, uni)[:8]:
+            a.add(x)
+        if not same_state(b, b_before):
+            res.add("merge-mutates-argument", comp, "receiver-updated-after-merge" + ("-into-empty" if split == 0 else ""), "adding to the merged sketch changed the sketch that was merged in")
+        a = a2
         # idempotent / commutative forms
         c1, c2 = _mk(case), _mk(case)
         _feed(c1, uni, stream[split:])
@@ -431,6 +475,33 @@ def run_reservoir(case: dict) -> Result:
             break
     if r.item_count != n:
         res.add("item-count", comp, "after-add", f"{r.item_count} vs {n}")
+    # merge of two reservoirs (also not yet full ones): min(k, n1+n2) items, all of them from the two streams
+    adds = case["adds"]
+    for split in sorted({0, len(adds) // 2, len(adds) // 3, len(adds)}):
+        ra = ReservoirSampler(size=case["size"], seed=3)
+        rb = ReservoirSampler(size=case["size"], seed=4)
+        seen, na, nb = set(), 0, 0
+        for step, (item, c) in enumerate(adds):
+            uid = (item, step)
+            (ra if step < split else rb).add(uid, c)
+            if c:
+                seen.add(uid)
+            if step < split:
+                na += c
+            else:
+                nb += c
+        ra.merge(rb)
+        res.count("queries_checked")
+        m = ra.sample()
+        if len(m) != min(case["size"], na + nb):
+            res.add("sample-size", comp, "after-merge" + ("-of-partly-filled-reservoirs" if min(na, nb) < case["size"] else ""), f"holds {len(m)} items after merging streams of {na} and {nb}, expected min({case['size']},{na + nb})")
+            break
+        if any(x not in seen for x in m):
+            res.add("sample-not-from-stream", comp, "after-merge", "")
+            break
+        if ra.item_count != na + nb:
+            res.add("item-count", comp, "after-merge", f"{ra.item_count} vs {na + nb}")
+            break
     if n > case["size"]:
         res.nontrivial = True
         res.count("replacements_possible")
